@@ -402,14 +402,14 @@ def error_echo_fields():
 
 
 def error_split_max():
-    """msg = err.raw_msg.decode('latin-1').split(' ', N) + [None]"""
+    """msg = err.raw_msg.strip().decode('latin-1').split(' ', N) + [None]  (the raw line is stripped like decode_msg does)"""
     h = _one('DecodeError')
     for a in walk_type(h, ast.Assign):
         s = nows(a)
-        pre, post = "msg=err.raw_msg.decode('latin-1').split('',", ')+[None]'
+        pre, post = "msg=err.raw_msg.strip().decode('latin-1').split('',", ')+[None]'
         if s.startswith(pre) and s.endswith(post):
             return 'nat', cnat(int(s[len(pre):-len(post)]))
-    raise Shape('handle: latin-1 re-split of the raw message not found')
+    raise Shape('handle: latin-1 re-split of the stripped raw message not found')
 
 
 def help_before_dispatch():
